@@ -63,3 +63,17 @@ PROPS["C10"] = {
             "stride of unlisted days. evaluations = lookups; distinct_nontrivial = (country, kind) calendars with at least one date.",
     "assumptions": ["the two text files are the source data", "chrono date parsing"],
 }
+
+PROPS["C05"] = {
+    "technique": "grammar-directed generation with syntactic-variant rendering; parsed AST compared with the denoted AST; single-field corruption table",
+    "level_text": "Sentences are rendered from generated ASTs through every documented spelling variant (the renderer is independent of the library's Display) and the parser's output is compared field by field with the AST the sentence denotes; a table of single-field corruptions and unsupported constructs must be rejected. Exploration: coverage of productions x variants is measured and a variant never rendered fails the run.",
+    "rule": "seeded ASTs restricted to shapes the documented grammar can denote (<= 4 rules quick / 6 thorough; every selector kind alone in a third of the cases) x 3..7 spellings each chosen among 34 variant knobs (optional spaces, single-digit hours/days, off/closed, ':'/' ' separators, '+' forms, 'Jan 5-10', '\"c\":' prefix, ...); oracle: parse(render(ast)) == ast on the library's public AST type. Negative: ~1500 single-field corruptions (hour, minute, extended time, day, week, nth, year, zero step, empty, unbalanced quote) in 6 sentence contexts must be Err; points in time and Easter+day number must be Err. Non-trivial = expression with at least one selector; distinct by hash of the AST.",
+    "assumptions": ["the harness renderer emits only sentences derivable from grammar.pest (checked by review and by the unchanged tree accepting all of them)", "PartialEq on the public AST types"],
+}
+
+PROPS["C01"] = {
+    "technique": "reference-model monitor: pointwise 1440-minute model of the documented rule semantics vs schedule_at/state on generated expressions x boundary-biased days",
+    "level_text": "Every generated (expression, holiday context, day) is evaluated by the library and by an independent pointwise model (direct calendar arithmetic, minute array, no range lists or hints) and compared minute by minute, on days derived from the expression's own selectors +-2, random days and contiguous sweeps; live Schedule structure is asserted through the verif_ranges hook. Exploration with measured selector-kind coverage; shapes no document settles are counted as abstentions, never judged.",
+    "rule": "seeded ASTs (<= 4 rules/3 entries/3 spans quick; 6/4/4 thorough; each selector kind alone in ~30% of rotating shards) rendered to one of their spellings x holiday context (none / 6 synthetic calendars / embedded countries) x 64 targeted + 48 random days (thorough: 300 + 200 + 400..800-day sweep; single-selector expressions swept day by day 1900..2100). Oracle: model_day() of harness/src/model.rs. Non-trivial = expression has a selector other than 24/7 (cases_with_varying_schedule counts those whose model array varies over the probed days); distinct by hash of (AST, context).",
+    "assumptions": ["chrono's proleptic Gregorian calendar and ISO week numbers", "the harness's selector arithmetic (model.rs), cross-checked by the seeded mutants and by staying silent on the repaired tree", "abstention shapes listed in DESIGN.md section 5 are not judged"],
+}
